@@ -211,7 +211,12 @@ def bulk_configs(seed):
     it): sampler pool whose per-bound proposal cache is refilled several times."""
     return [dict(kind='gauss', n_batch=50, n_live=40, n_points_min=6, pool=[None, 2], blob='int', seed=27 + seed, mseed=seed,
                  snapshot_only=True,
-                 history=[['run', dict(n_eff=200, n_like_rel=16000, n_shell=2800, discard_exploration=False)]])]
+                 history=[['run', dict(n_eff=200, n_like_rel=16000, n_shell=2800, discard_exploration=False)]]),
+            # with a checkpoint file and bounds that reject (networks): per-bound caches are drained and refilled while
+            # incremental updates are written after every batch
+            dict(kind='ring', n_batch=25, n_live=40, n_points_min=6, n_networks=1, blob='float', seed=28 + seed, mseed=seed,
+                 snapshot_only=True, filepath=True,
+                 history=[['run', dict(n_eff=200, n_like_rel=9000, n_shell=1500, discard_exploration=True)]])]
 
 
 def gen_worlds(n, seed, scratch, n_cells=6, levels=(0, 1, 2, 3), n_bounds=3):
